@@ -425,12 +425,36 @@ CMP = ['eq', 'ne', 'lt', 'gt', 'le', 'ge']
 LOGIC = ['and', 'or', 'xor']
 
 
-def random_op(universe, rng, values, mutating=None):
-    """One random (op, args); TLC decides whether it is in contract."""
+def _entries(t):
+    if t['nd'] == 1:
+        return [x for x in t['e']]
+    if t['nd'] == 2:
+        return [x for row in t['e'] for x in row]
+    return []
+
+
+def random_op(universe, rng, values, mutating=None, state=None):
+    """One random (op, args); TLC decides whether it is in contract.  With the current state given, some in-place additions /
+    subtractions use an operand (scalar or length 1, every operand kind) that cancels one stored entry exactly."""
     names = list(universe['names'])
     kinds = universe['names']
     nums = [x for x in names if kinds[x] != 'lvec']
     logs = [x for x in names if kinds[x] == 'lvec']
+    if state is not None and nums and rng.random() < 0.12:
+        tgt = rng.choice(nums)
+        ent = [x for x in _entries(state['objs'][tgt]) if isinstance(x, list) and x[0] != 0]
+        if ent:
+            v = rng.choice(ent)
+            f = rng.choice(['add', 'sub'])
+            val = [-v[0], v[1]] if f == 'add' else [v[0], v[1]]
+            shape = rng.choice(['0', '11', '11', '211'])
+            if shape == '0':
+                o = lit(rng.choice(['py', 'nd']), T(0, False, val))
+            elif shape == '11':
+                o = lit(rng.choice(['list', 'nd', 'sp', 'sp']), T(1, False, [val]))
+            else:
+                o = lit(rng.choice(['nd', 'sp']), T(2, False, [[val]]))
+            return 'iop', dict(tgt=tgt, f=f, o=o)
     if mutating is None:
         mutating = rng.random() < 0.5
     if mutating:
